@@ -6,7 +6,7 @@
 From Coq Require Import ZArith QArith Qcanon List Bool Arith.
 From QV.Core Require Import OF QcOF Sums Mat.
 From QV.Model Require Import C09_LinEst C09_History.
-From QV.Proofs Require Import C09_LinEst C09_Rank C09_History C09_Witness.
+From QV.Proofs Require Import C09_LinEst C09_Rank C09_GJ C09_History C09_Witness.
 Import ListNotations.
 
 (* 1. the left-inverse certificate alone gives the two-sided inverse and its symmetry *)
@@ -157,11 +157,7 @@ Print Assumptions C09_wide_tester_set_raises.
 (* 12e. the repaired guard is SOUND (all sizes, every ordered field): a tester set that passes it has an injective
         forward map, so two variable vectors with the same exact data are equal, A^T A has no kernel certificate, and the
         estimator never runs np.linalg.inv on an exactly singular matrix.
-        [rank_of] (exact pivot count) stands for np.linalg.matrix_rank; the two are tied by the correspondence only.
-        NOT proved (hence the name _partial of the last one): "passes the guard -> a certified inverse EXISTS"
-          forall m n A, coded_guard m n A = true -> exists M, left_inverse_cert n M (gram m A)
-        (needs completeness of Gauss-Jordan on A^T A); the existence of M is established at run time, per instance,
-        by the exact certificate check inside [solve]. *)
+        [rank_of] (exact pivot count) stands for np.linalg.matrix_rank; the two are tied by the correspondence only. *)
 Theorem C09_fullrank_guard_sound : forall (F : OF) m n (A : @mat F),
   coded_guard m n A = true -> forall w, veq m (mv n A w) vzero -> veq n w vzero.
 Proof. exact guard_sound. Qed.
@@ -172,15 +168,82 @@ Theorem C09_passing_guard_identifiable : forall (F : OF) m n (A : @mat F) (b v v
 Proof. exact guard_identifiable. Qed.
 Print Assumptions C09_passing_guard_identifiable.
 
-Theorem C09_fullrank_guard_invertible_partial : forall (F : OF) m n (A : @mat F) (w : @vec F),
+Theorem C09_fullrank_guard_excludes_kernel : forall (F : OF) m n (A : @mat F) (w : @vec F),
   coded_guard m n A = true -> ~ kernel_cert n (gram m A) w.
 Proof. exact guard_excludes_kernel. Qed.
-Print Assumptions C09_fullrank_guard_invertible_partial.
+Print Assumptions C09_fullrank_guard_excludes_kernel.
 
 Theorem C09_never_singular : forall (F : OF) m n (A : @mat F) (b : list F) (sq : list (dataset F)),
   calc_estimate_sequence m n A b sq <> E_singular.
 Proof. exact never_singular. Qed.
 Print Assumptions C09_never_singular.
+
+(* 12f. (round 3, Proofs/C09_GJ.v) Gauss-Jordan as used by the model is COMPLETE, so nothing about the inverse is left to
+        the run: on every n x n matrix it returns a matrix passing the left-inverse certificate or a vector passing the
+        kernel certificate; [solve] never fails and answers S_inv exactly when the kernel is trivial; the repaired guard
+        passes EXACTLY when A^T A is invertible (this closes the former C09_fullrank_guard_invertible_partial); the
+        estimator never reaches its "internal" branch and returns exactly when the guard passes and the data have m
+        entries; the guard raises only when two different variable vectors have identical exact data. *)
+Theorem C09_gauss_jordan_correct : forall (F : OF) n (G : @mat F),
+  match gj n (lrows n n G) with
+  | GJ_inv _ rows => left_inverse_cert n (mofr rows) G
+  | GJ_ker _ w => kernel_cert n G (vofl w)
+  end.
+Proof. exact gj_correct. Qed.
+Print Assumptions C09_gauss_jordan_correct.
+
+Theorem C09_solve_complete : forall (F : OF) m n (A : @mat F), solve m n A <> S_fail.
+Proof. exact solve_complete. Qed.
+Print Assumptions C09_solve_complete.
+
+Theorem C09_solve_inv_iff_no_kernel : forall (F : OF) m n (A : @mat F),
+  (exists M, solve m n A = S_inv M) <-> (forall w, ~ kernel_cert n (gram m A) w).
+Proof. exact solve_inv_iff_no_kernel. Qed.
+Print Assumptions C09_solve_inv_iff_no_kernel.
+
+Theorem C09_rank_deficient_has_kernel : forall (F : OF) m n (A : @mat F),
+  (rank_of m n A < n)%nat -> exists w, kernel_cert n (gram m A) w.
+Proof. exact rank_deficient_gram_kernel. Qed.
+Print Assumptions C09_rank_deficient_has_kernel.
+
+Theorem C09_fullrank_guard_iff_solve : forall (F : OF) m n (A : @mat F),
+  coded_guard m n A = true <-> exists M, solve m n A = S_inv M.
+Proof. exact guard_iff_solve. Qed.
+Print Assumptions C09_fullrank_guard_iff_solve.
+
+Theorem C09_fullrank_guard_iff_invertible : forall (F : OF) m n (A : @mat F),
+  coded_guard m n A = true <-> exists M, left_inverse_cert n M (gram m A).
+Proof. exact guard_iff_invertible. Qed.
+Print Assumptions C09_fullrank_guard_iff_invertible.
+
+Theorem C09_never_internal : forall (F : OF) m n (A : @mat F) (b : list F) (sq : list (dataset F)),
+  calc_estimate_sequence m n A b sq <> E_internal.
+Proof. exact never_internal. Qed.
+Print Assumptions C09_never_internal.
+
+Theorem C09_coded_returns_iff_guard : forall (F : OF) m n (A : @mat F) (b : list F) (sq : list (dataset F)),
+  (exists xs, calc_estimate_sequence m n A b sq = E_ok xs) <->
+  coded_guard m n A = true /\ Forall (fun ds => ds <> [] /\ length (concat (map snd ds)) = m) sq.
+Proof. exact coded_returns_iff_guard. Qed.
+Print Assumptions C09_coded_returns_iff_guard.
+
+Theorem C09_guard_raises_only_when_unidentifiable : forall (F : OF) m n (A : @mat F) (b v : @vec F),
+  coded_guard m n A = false ->
+  exists v' : @vec F, veq m (predict n A b v') (predict n A b v) /\ ~ veq n v' v.
+Proof. exact guard_false_unidentifiable. Qed.
+Print Assumptions C09_guard_raises_only_when_unidentifiable.
+
+(* 12g. THE PROPERTY in its own words, for the estimator as coded, without any hypothesis about an inverse:
+        informationally complete tester set (the guard passes) + in every dataset the exact outcome distributions of v
+        (any outcome counts per schedule)  ->  the estimator returns one estimate per dataset, each equal to v *)
+Theorem C09_complete_tester_set_recovers : forall (F : OF) m n (A : @mat F) (b : list F) (sq : list (dataset F)) (v : @vec F),
+  coded_guard m n A = true ->
+  Forall (fun ds => ds <> [] /\ length (concat (map snd ds)) = m /\
+                    veq m (vofl (concat (map snd ds))) (predict n A (vofl b) v)) sq ->
+  exists xs, calc_estimate_sequence m n A b sq = E_ok xs /\ length xs = length sq /\
+             Forall (fun x => length x = n /\ veq n (vofl x) v) xs.
+Proof. exact complete_tester_set_recovers. Qed.
+Print Assumptions C09_complete_tester_set_recovers.
 
 (* 13. estimating a sequence of datasets = estimating each dataset alone (both directions; no state is threaded) *)
 Theorem C09_sequence_is_map : forall (F : OF) m n (A : @mat F) (b : list F) (sq : list (dataset F)) xs,
